@@ -499,6 +499,85 @@ impl Property for AnyBytes {
     }
 }
 
+///////////////////////////////////////// concatenated encodings //////////////////////////////////
+
+/// Protocol buffers: parsing the concatenation of two encoded messages gives the same result as
+/// parsing them separately and merging the second into the first - a singular scalar / bytes /
+/// string field takes its LAST occurrence, an optional field the last one present, a repeated field
+/// the occurrences of both in order.  (Singular and optional MESSAGE-typed fields are not asserted:
+/// the standard merges them recursively, prototk replaces them, and the property takes no side.)
+#[derive(Clone, Debug, Serialize, Deserialize)]
+struct ConcatCase {
+    ty: MsgId,
+    a: DMsg,
+    b: DMsg,
+}
+
+struct Concatenated;
+
+fn struct_ids() -> Vec<(u32, MsgId)> {
+    gens::type_weights().into_iter().filter(|(_, id)| matches!(schema(*id), Schema::Struct(_))).collect()
+}
+
+impl Property for Concatenated {
+    type Case = ConcatCase;
+    fn name(&self) -> String {
+        "concatenated-encodings".into()
+    }
+    fn cases(&self, tier: Tier) -> u64 {
+        tier.pick(20_000, 400_000)
+    }
+    fn strategy(&self, _: &Ctx) -> BoxedStrategy<ConcatCase> {
+        let arms: Vec<(u32, BoxedStrategy<ConcatCase>)> = struct_ids()
+            .into_iter()
+            .map(|(w, id)| (w, (gens::gen_msg(id, 0), gens::gen_msg(id, 0)).prop_map(move |(a, b)| ConcatCase { ty: id, a, b }).boxed()))
+            .collect();
+        proptest::strategy::Union::new_weighted(arms).boxed()
+    }
+    fn run(&self, _: &Ctx, c: &ConcatCase) -> Outcome {
+        let mut o = Outcome::pass();
+        o.label(format!("type:{:?}", c.ty));
+        let Schema::Struct(fields) = schema(c.ty) else { return o };
+        let (DMsg::Struct(fa), DMsg::Struct(fb)) = (&c.a, &c.b) else { return o };
+        let mut bytes = encode(c.ty, &c.a).bytes;
+        bytes.extend_from_slice(&encode(c.ty, &c.b).bytes);
+        let got = match decode(c.ty, &bytes) {
+            Ok((DMsg::Struct(g), 0)) => g,
+            other => {
+                o.fail("concat-decode", format!("the concatenation of two valid encodings of {:?} does not decode completely: {}; a = {} b = {}", c.ty, vcore::truncate(&format!("{other:?}"), 300), show_val(&c.a), show_val(&c.b)));
+                return o;
+            }
+        };
+        let mut asserted = 0;
+        let mut differing = 0;
+        for (i, f) in fields.iter().enumerate() {
+            let is_msg = matches!(f.ty, model::Ty::Msg(_));
+            let want = match (&fa[i], &fb[i]) {
+                (DVal::One(_), DVal::One(y)) if !is_msg => DVal::One(y.clone()),
+                (DVal::Opt(x), DVal::Opt(y)) if !is_msg => DVal::Opt(y.clone().or_else(|| x.clone())),
+                (DVal::Rep(x), DVal::Rep(y)) => DVal::Rep(x.iter().chain(y.iter()).cloned().collect()),
+                _ => continue,
+            };
+            asserted += 1;
+            if fa[i] != fb[i] {
+                differing += 1;
+            }
+            if got[i] != want {
+                o.fail(
+                    format!("concat-merge:{:?}:{:?}", f.ty, f.shape).replace("Msg(", "Msg").replace(')', ""),
+                    format!("field {} ({:?}, {:?}) of {:?}: decoding enc(a) ++ enc(b) gives {:?}, the protocol-buffers merge of a's {:?} and b's {:?} is {:?}", f.num, f.ty, f.shape, c.ty, got[i], fa[i], fb[i], want),
+                );
+                return o;
+            }
+        }
+        o.nontrivial = asserted >= 1 && differing >= 1;
+        if fields.iter().any(|f| matches!(f.ty, model::Ty::Bytes | model::Ty::Str)) {
+            o.label("has-bytes-or-string-field");
+        }
+        o
+    }
+}
+
 ////////////////////////////////////////////// varints /////////////////////////////////////////////
 
 #[derive(Clone, Debug, Serialize, Deserialize)]
@@ -851,7 +930,7 @@ fn main() {
     let check = Check::new(
         "C15",
         "exploration",
-        "proptest: a value of one of 15 derived message types (all scalar field types, fixed-size bytes, strings, optional, repeated, nested to depth 4, recursive, enums with unit/unnamed/named variants, Result; integers on 2^k-1/2^k/2^k+1 and their negations, floats on special values and NaN payloads, lengths on 127/128 and 16383/16384) is generated once as a dynamic tree and lowered to the typed value and to an independent wire encoder. Parts: round trip (pack_sz = length, bytes = reference wire encoding, unpack = value bitwise); unknown fields of every wire type (and malformed ones) spliced at field boundaries of any depth; random bytes and structure-aware mutations of valid encodings (non-canonical/over-long varints inside consistent lengths, truncation, bit flips, insert/delete); every 1..10-byte varint on the exact-length (slow) and padded (fast) decoder; tags and FieldIterator against an independent wire walker. Non-trivial: round trip - >= 3 encoded fields and a boundary integer, special float, nested message or non-empty repeated field; splice - >= 1 field spliced into a value with >= 2 encoded fields; bytes - >= 2 input bytes; varint - every case; iterator - >= 2 fields. Distinct by structural hash of the case.",
+        "proptest: a value of one of 15 derived message types (all scalar field types, fixed-size bytes, strings, optional, repeated, nested to depth 4, recursive, enums with unit/unnamed/named variants, Result; integers on 2^k-1/2^k/2^k+1 and their negations, floats on special values and NaN payloads, lengths on 127/128 and 16383/16384) is generated once as a dynamic tree and lowered to the typed value and to an independent wire encoder. Parts: round trip (pack_sz = length, bytes = reference wire encoding, unpack = value bitwise); unknown fields of every wire type (and malformed ones) spliced at field boundaries of any depth; random bytes and structure-aware mutations of valid encodings (non-canonical/over-long varints inside consistent lengths, truncation, bit flips, insert/delete); every 1..10-byte varint on the exact-length (slow) and padded (fast) decoder; tags and FieldIterator against an independent wire walker; concatenated encodings enc(a) ++ enc(b) of struct-shaped types decode to the protocol-buffers merge (last occurrence of singular scalar / bytes / string fields, last present optional, repeated fields appended; message-typed singular fields not asserted). Non-trivial: round trip - >= 3 encoded fields and a boundary integer, special float, nested message or non-empty repeated field; splice - >= 1 field spliced into a value with >= 2 encoded fields; bytes - >= 2 input bytes; varint - every case; iterator - >= 2 fields. Distinct by structural hash of the case.",
     )
     .assume("fields are written in declaration order, zero/empty values are always written, repeated scalars are not packed, a unit enum variant is an empty length-delimited field: legal protobuf encodings chosen by prototk_derive, mirrored by the reference encoder")
     .assume("wire types 3, 4, 6, 7 and field numbers 0 / 19000..19999 / >= 2^29 are documented as rejected; for those only 'no panic, and Ok implies the known fields are undisturbed' is asserted on messages (the rejection itself is asserted on Tag::unpack)")
@@ -862,6 +941,7 @@ fn main() {
     .pbt(RoundTrip)
     .pbt(Splice)
     .pbt(AnyBytes)
+    .pbt(Concatenated)
     .pbt(Varints15)
     .pbt(TagsAndIterator);
     vcore::main_with(vec![check], &[("seed-corpus", seed_corpus), ("dump-bytes", dump_bytes)]);
